@@ -158,9 +158,11 @@ def handleInstall (what : String) : String :=
     s!"F reported={r.reported} dest={sfileStr r.st.dest} tmp={sfileStr r.st.tmp}"
   | _ => "BAD"
 
-/-! wire / migrate model: `W ret <ty> | args <ty>.. | pkg <func>;.. | items <item>;..` with
+/-! wire / migrate model: `W ret <ty> | args <ty>.. | pkg <func>;.. | items <item>;.. [| parts <n>..]` with
     ty = v<n> | p<n> | i<n> | b<n>; func = <name> <result ty> : <param ty>..;
-    item = f <func> | b <iface n> <impl ty> | s <n> : <field ty>.. | o <n> <ptrForm 0|1> : <field ty>.. -/
+    item = f <func> | b <iface n> <impl ty> | s <n> : <field ty>.. | o <n> <ptrForm 0|1> : <field ty>..;
+    parts = the element-list id of each item, in item order (absent = every item in list 0).
+    `migrate=refused` when `kessoku migrate` refuses or the migrated declaration is ambiguous for kessoku. -/
 def parseTy (t : String) : Option Wire.Ty :=
   match t.toList with
   | 'v' :: r => (String.ofList r).toNat?.map Wire.Ty.val
@@ -219,11 +221,12 @@ def handleWire (line : String) : String :=
     let items := itemsS.map parseItem
     if items.any Option.isNone then "BAD"
     else
-      let c : Wire.Cfg := { items := items.filterMap id, args := args, ret := ret, pkgFuncs := pkg }
+      let c : Wire.Cfg := { items := items.filterMap id, args := args, ret := ret, pkgFuncs := pkg,
+                            parts := parseNats (sectOf parts "parts") }
       let fuel := 4 * (c.items.length + 4)
       let w := Wire.wireEval c fuel c.ret
       let complete := Wire.V.noBot w && Wire.V.noMissing w
-      match Wire.migrate c with
+      match Wire.migrateChecked c with
       | none => s!"W migrate=refused faithful={Wire.faithful c} complete={complete}"
       | some ks => s!"W migrate=ok equal={Wire.V.beq (Wire.kEval ks fuel c.ret) w} faithful={Wire.faithful c} complete={complete}"
 
